@@ -67,6 +67,15 @@ INFO = {
  'u1': ('C04', '~call_matcher: reports only `if (is_unfulfilled() && !std::uncaught_exception())`', 'scope of an unfulfilled expectation left by an exception'),
  'u2': ('C05', 'sequence_handler<N>::retire_predecessors(): only `if (is_satisfied())` (the third site of F1)', 'lower bound >= 2, satisfied-but-unsaturated predecessor called again between the first call and the one that reaches the lower bound'),
  'u3': ('C06', '~sequence_type(): satisfied expectations are unlinked without being listed', 'sequence object dies before satisfied-but-open expectations registered in it'),
+ 'v1': ('C08', 'run_actions(): retire_predecessors() and the saturation retire() moved behind the side-effect loop', 'sequenced expectation behind an ALLOW_CALL, its SIDE_EFFECT throws: the call counts but the sequence does not move, the predecessor is accepted again'),
+ 'v2': ('C15', 'free report_mismatch(): the saturated listing prints heading and signature together and breaks after the first match', 'two saturated expectations that both match the rejected call (third writing of f2 / i1)'),
+ 'v3': ('C17', 'trace_agent: the per-call ostringstream member replaced by a reference to one function-local static buffer', 'live tracer and a mock call made from inside a side effect of a traced call: the outer record carries the inner call\'s text and values'),
+ 'w1': ('C05', 'lifetime_monitor::notify(): returns after the out-of-sequence report, before increment_call() / retire_predecessors()', 'sequenced REQUIRE_DESTRUCTION behind an unmet predecessor, object destroyed too early, then one more call (second writing of c1)'),
+ 'w2': ('C06', 'sequence_type::is_completed(): single-exit loop with a lost accumulator (`completed = matcher.is_satisfied()`): the last registered expectation decides', 'tail expectation with lower bound 0 registered behind a still-unsatisfied one'),
+ 'w3': ('C13', 'null_on_move copy / move assignment `= default` (copies the raw monitor pointer; reverts fix F3)', 'assignment to a deathwatched object while a requirement is alive on the target or the source, then the target dies'),
+ 'x1': ('C01', 'sequence_matchers<N>::order(): the sum of the per-sequence costs instead of their maximum (`~0U + k` wraps to a small number)', 'expectation in two sequences, blocked in one, behind a satisfied un-retired predecessor in the other: the call is accepted'),
+ 'x2': ('C04', 'free report_mismatch(): the "Tried ..." text of the active expectations is built up front (setting `reported`) even when a saturated expectation is blamed', 'saturated expectation over-called while another expectation on the same function is unfulfilled: its shortfall is never reported'),
+ 'x3': ('C14', 'list_elem move assignment rewritten with locals n, p: `n->next = this` where `p->next = this` is needed', 'movable mock moved while two or more expectations are linked on one function: the older ones are lost and their links dangle'),
 }
 rows = []
 for d in sorted(glob.glob(os.path.join(HERE, 'seeded', '*'))):
